@@ -74,7 +74,7 @@ def _gen(ctx):
         raise RuntimeError(f'reference json for {name} not found')
     fam = s.weighted([2, 3, 3])
     if fam == 0:
-        size = 10_000 + s.draw(300_000_000)   # sizes below ~150k are slow (one Interval object per 65 us) but legal
+        size = 300_010_000 - s.draw(300_000_000)   # 0 -> one interval per contig; sizes below ~150k are slow but legal
     elif fam == 1:
         size = int(300_000 * math.exp(s.flt() * math.log(1000)))
     else:
@@ -115,6 +115,13 @@ def run(ctx):
             hi = iv.end.position - (0 if iv.includes_end else 1)
             per[c].append((lo, hi))
         ctx.log.add('result', 'intervals', len(ivs), tuple(len(per[c]) for c in primary))
+        # shape of the instance (goes into the run's fingerprint): relation of each contig length to the size
+        def rel(length):
+            if length < size:
+                return 'l'
+            m = length % size
+            return 'e' if m == 0 else 'p' if m == 1 else 'm' if m == size - 1 else 'o'
+        ctx.log.add('shape', tag + ':' + ''.join(rel(lengths[c]) for c in primary) + ':' + str(min(len(ivs), 60)))
         ctx.extra['n_intervals'] = len(ivs)
         corner = {'len_lt_size': 0, 'len_eq_k_size': 0, 'len_eq_k_size_pm1': 0, 'len_1': 0}
         # pass 1: shape
